@@ -171,6 +171,9 @@ func ZZ_C15_G12() {
 	zzverif.Reach("G12 accepted")
 }
 
+// zzSeedOptType is the proposal type used by seedProposal (GOVPARAMS unless a harness sets it).
+var zzSeedOptType int32 = proposal.PROPOSAL_GOVPARAMS
+
 type zzPropSpec struct {
 	nvoters int
 	powers  []int64
@@ -191,7 +194,7 @@ func (g *zzG) seedProposal(txhash []byte, start, period, applying int64, nvoters
 		voters[zzAddr(i).String()] = &proposal.Voter{Addr: zzAddr(i), Power: p, Choice: proposal.NOT_CHOICE}
 		total += p
 	}
-	prop, xerr := proposal.NewGovProposal(txhash, proposal.PROPOSAL_GOVPARAMS, start, period, total, applying, voters, opts...)
+	prop, xerr := proposal.NewGovProposal(txhash, zzSeedOptType, start, period, total, applying, voters, opts...)
 	if xerr != nil {
 		panic(xerr)
 	}
@@ -290,10 +293,17 @@ func ZZ_C15_G567() {
 	sp := g.seedProposal(zzHash(0), end-1, 1, applying, 3, 2, [][]byte{oA, oB}, "p")
 	var sp2 *zzPropSpec
 	var pC *ctrlertypes.GovParams
+	secondCommon := false
 	if two {
 		var oC []byte
 		oC, pC = zzOption("optC", 1<<5|1<<16) // lazyRewardBlocks, slashRatio
+		// the second proposal is either a parameter proposal or an off-chain ("common")
+		// one, whose options - whatever they contain - never touch the parameters
+		if zzverif.Choose("second.common", 2) == 1 {
+			zzSeedOptType, secondCommon = proposal.PROPOSAL_COMMON, true
+		}
 		sp2 = g.seedProposal(zzHash(1), end-1, 1, applying, 1, 1, [][]byte{oC}, "q")
+		zzSeedOptType = proposal.PROPOSAL_GOVPARAMS
 	}
 	_, _, _ = g.gc.Commit()
 	old := g.params
@@ -370,11 +380,14 @@ func ZZ_C15_G567() {
 		_ = json.Unmarshal(oB, pB)
 		want = ctrlertypes.ZZGovOverlay(want, pB)
 	}
-	if two && win2 {
+	if two && win2 && !secondCommon {
 		if winner >= 0 {
 			zzverif.Known("C15-F1", true) // two proposals applied in one block
 		}
 		want = ctrlertypes.ZZGovOverlay(want, pC)
+	}
+	if two && win2 && secondCommon {
+		zzverif.Reach("G567 common proposal passed")
 	}
 	ctrlertypes.ZZGovParamsAssertEq(&g.gc.GovParams, want, "G6/G7 active parameters = previous ones overlaid with every applied winning option")
 	stored, _ := g.gc.paramsLedger.Read(ledger.ToLedgerKey(make([]byte, 32)))
